@@ -106,3 +106,122 @@ func FromReflect(s *vschema.Schema, mi int, m protoreflect.Message) *Val {
 
 // ScalarFromValue exposes the scalar conversion (protoreflect.Value -> bits/blob token) for engines.
 func ScalarFromValue(k vschema.Kind, v protoreflect.Value) *Val { return scalarFromValue(k, v) }
+
+func valueOfScalar(k vschema.Kind, v *Val) (protoreflect.Value, bool) {
+	switch k {
+	case vschema.Bool:
+		return protoreflect.ValueOfBool(v.N != 0), v.T == Bits
+	case vschema.Int32, vschema.Sint32, vschema.Sfixed32:
+		return protoreflect.ValueOfInt32(int32(uint32(v.N))), v.T == Bits
+	case vschema.Int64, vschema.Sint64, vschema.Sfixed64:
+		return protoreflect.ValueOfInt64(int64(v.N)), v.T == Bits
+	case vschema.Uint32, vschema.Fixed32:
+		return protoreflect.ValueOfUint32(uint32(v.N)), v.T == Bits
+	case vschema.Uint64, vschema.Fixed64:
+		return protoreflect.ValueOfUint64(v.N), v.T == Bits
+	case vschema.Enum:
+		return protoreflect.ValueOfEnum(protoreflect.EnumNumber(int32(uint32(v.N)))), v.T == Bits
+	case vschema.Float:
+		return protoreflect.ValueOfFloat32(math.Float32frombits(uint32(v.N))), v.T == Bits
+	case vschema.Double:
+		return protoreflect.ValueOfFloat64(math.Float64frombits(v.N)), v.T == Bits
+	case vschema.String:
+		return protoreflect.ValueOfString(string(v.B)), v.T == Blob
+	case vschema.Bytes:
+		return protoreflect.ValueOfBytes(append([]byte{}, v.B...)), v.T == Blob
+	}
+	return protoreflect.Value{}, false
+}
+
+// ToReflect stores the value v into the (empty) message m through the reflection API alone: an INDEPENDENT way to
+// a reference message holding v (no encoder or decoder of the code under test in between). Returns false when v
+// has no such counterpart (nil junk in element positions, malformed trees); proto3 scalars equal to zero stay unset.
+func ToReflect(s *vschema.Schema, mi int, v *Val, m protoreflect.Message) bool {
+	if v == nil || v.T != Msg || len(v.Kids) != len(s.Msgs[mi].Fields) {
+		return false
+	}
+	md := m.Descriptor()
+	ok := true
+	for j, f := range s.Msgs[mi].Fields {
+		f := f
+		fd := md.Fields().ByNumber(protoreflect.FieldNumber(f.Num))
+		if fd == nil {
+			return false
+		}
+		slot := v.Kids[j]
+		elem := func(x *Val, newMsg func() protoreflect.Message) (protoreflect.Value, bool) {
+			if f.IsMsg {
+				sub := newMsg()
+				if !ToReflect(s, f.Msg, x, sub) {
+					return protoreflect.Value{}, false
+				}
+				return protoreflect.ValueOfMessage(sub), true
+			}
+			return valueOfScalar(f.Kind, x)
+		}
+		switch f.Shape {
+		case vschema.Singular:
+			if slot.T == None {
+				continue
+			}
+			if !f.IsMsg && ((slot.T == Bits && slot.N == 0) || (slot.T == Blob && len(slot.B) == 0)) {
+				continue
+			}
+			val, o := elem(slot, func() protoreflect.Message { return m.NewField(fd).Message() })
+			if !o {
+				return false
+			}
+			m.Set(fd, val)
+		case vschema.Oneof:
+			if slot.T == None {
+				continue
+			}
+			if slot.T != One || len(slot.Kids) != 1 {
+				return false
+			}
+			val, o := elem(slot.Kids[0], func() protoreflect.Message { return m.NewField(fd).Message() })
+			if !o {
+				return false
+			}
+			m.Set(fd, val)
+		case vschema.Repeated:
+			if slot.T != List {
+				return false
+			}
+			if len(slot.Kids) == 0 {
+				continue
+			}
+			l := m.Mutable(fd).List()
+			for _, e := range slot.Kids {
+				val, o := elem(e, func() protoreflect.Message { return l.NewElement().Message() })
+				if !o {
+					return false
+				}
+				l.Append(val)
+			}
+		case vschema.Map:
+			if slot.T != Map {
+				return false
+			}
+			if len(slot.Kids) == 0 {
+				continue
+			}
+			mp := m.Mutable(fd).Map()
+			for _, e := range slot.Kids {
+				if e.T != Entry || len(e.Kids) != 2 {
+					return false
+				}
+				kv, o1 := valueOfScalar(f.Key, e.Kids[0])
+				val, o2 := elem(e.Kids[1], func() protoreflect.Message { return mp.NewValue().Message() })
+				if !o1 || !o2 {
+					return false
+				}
+				mp.Set(kv.MapKey(), val)
+			}
+		}
+	}
+	if len(v.B) > 0 {
+		m.SetUnknown(append(protoreflect.RawFields(nil), v.B...))
+	}
+	return ok
+}
